@@ -37,7 +37,8 @@ HIST = ['inplace', 'view', 'resign', 'elementwise', 'intfmt', 'fortran', 'transp
 def warm_up(fx, np, X):
     """typical uses of an object, so that anything the library may cache about it is cached (results are discarded)"""
     for f in (lambda: X.get_val(), lambda: X + X, lambda: X * X, lambda: X - X, lambda: X >> 2, lambda: X << 1, lambda: X < X, lambda: X == 0,
-              lambda: X.astype(int), lambda: X.astype(float), lambda: X.bin(), lambda: X.hex(), lambda: np.sum(X), lambda: ~X, lambda: X.raw(), lambda: X.uraw()):
+              lambda: X.astype(int), lambda: X.astype(float), lambda: X.bin(), lambda: X.hex(), lambda: np.sum(X), lambda: ~X, lambda: X.raw(), lambda: X.uraw(),
+              lambda: X & 1, lambda: X | 1, lambda: X ^ 1, lambda: X.mean(), lambda: X.max(), lambda: X.item() if X.size == 1 else X[0]):
         try:
             f()
         except Exception:
@@ -56,6 +57,8 @@ def mk_hist(fx, np, t, codes, shape=None, mode='inplace', **cfg):
       shifted     - the operand is the result of `y >> 1` in trunc mode (same format; y held the doubled codes)
       element     - (scalar operands) the operand is an ELEMENT taken from an array by an integer index: its value is a NumPy scalar
       intval      - (n_frac <= 0) built BY VALUE from Python integers: the value type of the object is int and reads return integer arrays
+      reworded    - created with ANOTHER word length (same sign and fraction), used there, resized by n_word only, used, written in place
+      likeword    - built like= a template of another word length that was used before (Fxp(None, like=tmpl, n_word=w)), then written
       intfmt      - created from integers in the INTEGER format of the same word (n_frac = 0), resized in place to n_frac, used, written in place"""
     s, w, f = t
     scalar = isinstance(codes, int)
@@ -103,6 +106,17 @@ def mk_hist(fx, np, t, codes, shape=None, mode='inplace', **cfg):
     if mode == 'resign' and w >= 2 and w < 63:
         X = fx.Fxp(arr([0] * len(clist)), bool(not s), w, f, raw=True, **cfg)
         X.resize(signed=bool(s))
+        X.set_val(arr(other), raw=True)
+    elif mode == 'reworded' and 2 <= w < 60:
+        w0 = w + 3 if (w + len(clist)) % 2 else max(w - 2, (2 if s else 1))       # (wider or narrower before)
+        X = fx.Fxp(arr([0] * len(clist)), bool(s), w0, f, raw=True, **cfg)
+        warm_up(fx, np, X)
+        X.resize(n_word=w)
+        X.set_val(arr(other), raw=True)
+    elif mode == 'likeword' and 2 <= w < 60:
+        T = fx.Fxp(arr([0] * len(clist)), bool(s), w + 3 if (w + len(clist)) % 2 else max(w - 2, (2 if s else 1)), f, raw=True, **cfg)
+        warm_up(fx, np, T)
+        X = fx.Fxp(None, like=T, n_word=w)
         X.set_val(arr(other), raw=True)
     elif mode == 'intfmt' and f != 0 and w < 63:
         X = fx.Fxp(0 if scalar else np.zeros(arr(clist).shape, dtype=np.int64), bool(s), w, 0, **cfg)        # integer VALUES: vdtype is int
